@@ -252,7 +252,7 @@ c04_display!(c04_display_short_safe, Short, 15, 32, 36);
 //@ h=c04_display_normal props=C04 cfgs=K10 tier=t t=1200 | funcs: <Normal as Display>::fmt (from_utf8_unchecked arm) | bound: all values
 c04_display!(c04_display_normal, Normal, 35, 72, 76);
 
-//@ h=c04_canon_short props=C04 cfgs=K1,K3,K5 tier=q t=900 | funcs: Short::from_str_bytes(auto) then store_into_str_bytes | bound: all 2^256 candidate strings of both right lengths: accepted => re-format == "T1"+upper(digits)
+//@ h=c04_canon_short props=C04,C07 cfgs=K1,K3,K4,K5 tier=q t=900 | funcs: Short::from_str_bytes(auto) then store_into_str_bytes | bound: all 2^256 candidate strings of both right lengths: accepted => re-format == "T1"+upper(digits)
 c04_canon!(c04_canon_short, Short, 1, 15, 32, 36);
 //@ h=c04_canon_normal props=C04 cfgs=K1 tier=q t=1200 | funcs: Normal::from_str_bytes(auto) then store_into_str_bytes | bound: all strings of both right lengths
 c04_canon!(c04_canon_normal, Normal, 1, 35, 72, 76);
